@@ -15,7 +15,7 @@ from .load import FUNC_KINDS, AnalysisError, FuncInfo, norm
 
 
 class Node:
-    __slots__ = ("id", "kind", "ast", "raises", "succ", "pred", "shield", "label", "item", "cur")
+    __slots__ = ("id", "kind", "ast", "raises", "succ", "pred", "shield", "label", "item", "cur", "_own")
 
     def __init__(self, id_: int, kind: str, node: ast.AST | None, label: str = ""):
         self.id = id_
@@ -28,6 +28,13 @@ class Node:
         self.label = label
         self.item: ast.withitem | None = None
         self.cur: Esc | None = None
+        self._own: Esc | None = None
+
+    @property
+    def own(self) -> Esc:
+        """Sources that originate at this node (as opposed to exceptions merely passing through
+        a with-exit, a finally or a re-raise inside a handler)."""
+        return self.raises if self._own is None else self._own
 
     @property
     def lineno(self) -> int:
@@ -56,7 +63,7 @@ class Node:
         return f"<N{self.id} {self.kind} L{self.lineno} {self.text()[:40]}>"
 
     def may_cancel(self) -> bool:
-        return any(s.cls == CANCELLED for s in self.raises.values())
+        return any(s.cls == CANCELLED for s in self.own.values())
 
 
 class Edge:
@@ -171,6 +178,8 @@ class CFG:
             return o, ctx
         if isinstance(st, ast.Raise):
             n, o = self._simple("raise", st, ctx, preds, esc._raise(st, ctx))
+            if ctx.cur is not None:
+                n._own = Esc()  # raising inside a handler continues the propagation of the caught exception
             o.normal = []
             return o, ctx
         if isinstance(st, ast.Break):
@@ -311,6 +320,7 @@ class CFG:
                 incoming = esc.apply_map(incoming, pairs, f"{f.module.relpath}:{item.context_expr.lineno} {f.short}: map_exceptions")
             total = Esc(incoming)
             total.merge(xe.raises)
+            xe._own = xe.raises
             xe.raises = total
             res.exc.append((xe, total))
         for attr in ("ret", "brk", "cont"):
@@ -391,6 +401,7 @@ class CFG:
             if o2.normal:
                 rr = self._node("reraise", st, "re-raise after finally")
                 rr.raises = total
+                rr._own = Esc()
                 self._connect(o2.normal, rr)
                 fin.exc.append((rr, total))
         for attr in ("ret", "brk", "cont"):
